@@ -104,6 +104,8 @@ func c09(tier string) int {
 	}
 	if tier == "thorough" {
 		c09Uniform(run, &totalStates, &totalTrans)
+	} else {
+		uniformTableTier(run, "C09", true, &totalStates, &totalTrans)
 	}
 	totalTrans += pathExhaustive(run, tier, c09Monitor(run))
 	run.Set("states", totalStates)
